@@ -54,7 +54,7 @@ def structural(ctx, doc, r, what, files):
     bad = None
     if (sl, sc) > (el, ec):
         bad = "start-after-end"
-    elif el > doc.n_lines or sl > doc.n_lines:
+    elif el >= doc.n_lines or sl >= doc.n_lines:       # lines are 0 .. n_lines-1 (the last one may be empty)
         bad = "line-outside-document"
     else:
         for (l, c) in ((sl, sc), (el, ec)):
